@@ -16,6 +16,7 @@ import (
 	"time"
 
 	"github.com/anacrolix/dht/v2"
+	"github.com/anacrolix/dht/v2/int160"
 	"github.com/anacrolix/dht/v2/krpc"
 	peer_store "github.com/anacrolix/dht/v2/peer-store"
 	"github.com/anacrolix/log"
@@ -547,6 +548,53 @@ func (h *hist) evResponse(questionable bool) {
 	}
 }
 
+// evRevive: an entry that has failed a questionable-node ping answers one of the node's own non-ping queries
+// (it is good again from then on), and then its bucket is crowded by newcomers: it may not be displaced
+func (h *hist) evRevive() {
+	rng := h.rng
+	var failed []dht.VerifNode
+	for _, n := range h.srv.VerifTableSnapshot() {
+		if n.Failed && !h.block.Has(sim.MustUDP(n.Addr).IP) {
+			failed = append(failed, n)
+		}
+	}
+	if len(failed) == 0 {
+		return
+	}
+	n := failed[rng.Intn(len(failed))]
+	p := peer{id: n.Id, addr: sim.MustUDP(n.Addr)}
+	h.keep = nil
+	h.conn.Take()
+	ctx, cancel := context.WithCancel(context.Background())
+	defer cancel()
+	done := make(chan struct{})
+	tg := h.randTarget()
+	method := []string{"find_node", "get_peers", "get"}[rng.Intn(3)]
+	go func() {
+		defer close(done)
+		h.srv.Query(ctx, dht.NewAddr(p.addr), method, dht.QueryInput{MsgArgs: krpc.MsgArgs{Target: tg, InfoHash: tg}})
+	}()
+	q, ok := h.waitOut(p.addr.String(), "q", nil, 30*time.Second)
+	if !ok {
+		fail("own %s to %v was never written", method, p.addr)
+	}
+	t, _ := q.Str("t")
+	h.inject(sim.Encode(sim.D("t", t, "y", "r", "r", sim.D("id", p.id[:]))), p.addr)
+	<-done
+	h.emit("RecvResp", h.senderOf(p), false, true, false, nil)
+	// newcomers whose IDs fall into the same bucket
+	for i := 0; i < 10; i++ {
+		var c peer
+		cid := dht.VerifRandomIdInBucket(int160.FromByteArray(h.root), n.Bucket)
+		c.id = cid.AsByteArray()
+		c.addr = &net.UDPAddr{IP: net.IPv4(10, 7, byte(rng.Intn(250)), byte(1+rng.Intn(250))).To4(), Port: 1024 + rng.Intn(60000)} // private: any ID is valid
+		tt := h.nextT()
+		h.inject(sim.Encode(sim.D("t", tt, "y", "q", "q", "ping", "a", sim.D("id", c.id[:]))), c.addr)
+		h.emit("RecvQuery", h.senderOf(c), false, false, h.dropped(c.addr), sim.M{"method": "ping"})
+		h.waitOut(c.addr.String(), "r", []byte(tt), 3*time.Second)
+	}
+}
+
 func (h *hist) evUnsolicited() {
 	rng := h.rng
 	p := h.peers[rng.Intn(len(h.peers))]
@@ -680,6 +728,10 @@ func (h *hist) run(events int) {
 		}
 		if h.ps && rng.Intn(8) == 0 {
 			h.evAnnounce()
+			continue
+		}
+		if i > events/2 && rng.Intn(12) == 0 {
+			h.evRevive()
 			continue
 		}
 		switch {
